@@ -184,6 +184,8 @@ def elementwise(cx, rng, t, u, d, e, ts=()):
         run_op(cx, f'mul-broadcast-{nm_}', lambda: t.mul(c_), lambda: d * sv)
         run_op(cx, f'sub-broadcast-{nm_}', lambda: t.sub(c_), lambda: d - sv)
         run_op(cx, f'maximum-broadcast-{nm_}', lambda: t.maximum(c_), lambda: torch.maximum(d, torch.tensor(sv, dtype=d.dtype)))
+        for cmp_ in ('lt', 'le', 'gt', 'ge', 'eq'):
+            run_op(cx, f'{cmp_}-broadcast-{nm_}', lambda: getattr(t, cmp_)(c_), lambda: getattr(d, cmp_)(sv))
     s = rng.choice([0.5, 2.0, -1.0, 0.0, 3])
     run_op(cx, 'add-scalar', lambda: t.add(s), lambda: d + s)
     run_op(cx, 'sub-scalar', lambda: t.sub(s), lambda: d - s)
@@ -206,6 +208,13 @@ def unary(cx, rng, t, d, cls):
         run_op(cx, 'clamp_max', lambda: t.clamp_max(m), lambda: d.clamp_max(m))
     other = torch.float32 if d.dtype == torch.float64 else torch.float64
     run_op(cx, 'to', lambda: t.to(other), lambda: d.to(other))
+    # conversions that change the VALUE of the default (2.75 -> True, 2.75 -> 2), observed through a second operation
+    if not (isinstance(t.default, float) and math.isnan(t.default)):
+        run_op(cx, 'to-bool-to-float', lambda: t.to(torch.bool).to(d.dtype), lambda: d.to(torch.bool).to(d.dtype))
+        run_op(cx, 'to-bool-logical_not', lambda: t.to(torch.bool).logical_not(), lambda: d.to(torch.bool).logical_not())
+    if cls == 'finite':
+        run_op(cx, 'to-int-mul', lambda: t.to(torch.int64).mul(2), lambda: d.to(torch.int64) * 2)
+        run_op(cx, 'to-int-eq', lambda: t.to(torch.int64).eq(2), lambda: d.to(torch.int64).eq(2))
     # in-place forms act on a clone and must not touch the source
     before = A.densify_pt(t).clone()
     pb = t.physical.clone()
